@@ -82,7 +82,7 @@ SPEC = dict(
              "entries are reported with one IPv4 address and no host name (one dial per attempt; a failing attempt makes "
              "the two TCP connections of connectFoundService's retry without path)"],
     assumptions=["gen/HubTable.v (regenerated from hub/*.go): Shutdown sets a flag that coordinateConnectionInitations, "
-                 "prepareConnectionInitation, initateConnection and checkAutoReannounce consult; attempt counter capped at 2",
+                 "prepareConnectionInitation, initateConnection and checkAutoReannounce consult; attempt counter capped at 2; a stale attempt calls checkAutoReannounce; ServeHTTP/connectFoundService register through registerCheckedConnection (second close of the displaced connection)",
                  "connections never report CmiStateInitStart (reports are state changes; the only state mapped to Queued)"],
     extra_steps=[hub_halves],
 )
